@@ -2,7 +2,7 @@
 From Coq Require Import List NArith ZArith Bool String.
 From Coq Require Import Strings.Byte.
 From NfpmV Require Import Lib.Bytes Model.Content Model.Meta Model.Version Model.VerCmp Spec.C14.
-From NfpmV Require Import Proofs.C14Proofs.
+From NfpmV Require Import Proofs.C14Proofs Proofs.C14Rpm.
 Import ListNotations.
 Open Scope string_scope.
 Open Scope list_scope.
@@ -30,6 +30,22 @@ Theorem C14_dpkg_versions_prerelease_lt_release : forall v w e U R B r1 r2,
   dpkg_cmp v w = Some Lt.
 Proof. exact dpkg_pre_lt_release. Qed.
 Print Assumptions C14_dpkg_versions_prerelease_lt_release.
+
+(* rpm: for EVERY common prefix U - digits, letters, separators, even "~" and "^" - every remainder R and every
+   tail B that is empty or starts with a separator (the "+" of the metadata) not followed first by "~":
+   U~R sorts strictly before U B under rpmvercmp - a prerelease build before the release *)
+Theorem C14_rpm_prerelease_sorts_first : forall n U R B fuel, List.length U <= n -> n < fuel -> release_tail B ->
+  rpmvercmp fuel (U ++ "~"%byte :: R) (U ++ B) = Some Lt.
+Proof. exact rpmvercmp_tilde_lt. Qed.
+Print Assumptions C14_rpm_prerelease_sorts_first.
+
+Theorem C14_rpm_versions_prerelease_lt_release : forall e U R B r1 r2, release_tail B ->
+  rpm_cmp e (U ++ "~"%byte :: R) r1 e (U ++ B) r2 = Some Lt.
+Proof. exact rpm_pre_lt_release. Qed.
+Print Assumptions C14_rpm_versions_prerelease_lt_release.
+
+Example C14_rpm_release_tails : release_tail [] /\ release_tail (B "+git.5").
+Proof. split; [exact release_tail_nil|apply release_tail_plus; reflexivity]. Qed.
 
 (* any higher epoch sorts after any lower one, whatever follows *)
 Theorem C14_dpkg_epoch_dominates : forall v w e1 u1 r1 e2 u2 r2,
